@@ -29,7 +29,7 @@ import (
 )
 
 var c11Mutations = []string{"emptyiss", "emptyaud", "iss1byte", "isstrunc", "issbad", "isshuge", "isscorekey", "isscoreempty",
-	"sigempty", "sigcodeonly", "sigshort", "sighugesize", "sigbadcode", "sigbadvarint", "sig",
+	"sigempty", "sigcodeonly", "sigshort", "sighugesize", "sigsizemax", "sigsizenearmax", "sigbadcode", "sigbadvarint", "sig",
 	"nocaps", "capempty", "nbnull", "nbstring", "manycaps", "prfdangling", "prfmany",
 	"expneg", "expzero", "expmax", "nbfmax", "nbfneg", "verweird", "verempty", "nncempty", "aud", "cap", "exp"}
 
